@@ -3,11 +3,11 @@ C14 — the legacy (non-TLS) handshake gates the wrapped protocol.
 All statements quantify over every `verify`/`decrypt` behaviour (`Env`), every byte stream
 and every way of cutting it into `dataReceived` calls.
 
-Full-strength statement still open (not claimed): chunking independence *during* the
-handshake itself, `obs (feedAllT e init chunks) = obs (feedAllT e init [chunks.flatten])`
-under `e.verify [] = false`; after the handshake it follows from `C14.any_chunking`.
+`hs_any_chunking` extends the fragmentation theorem of `Props/C14.lean` to a connection that
+starts with the handshake: cutting the byte stream differently changes nothing observable.
 -/
 import DawgieVerif.Proofs.Handshake
+import DawgieVerif.Proofs.HandshakeChunk
 
 namespace DawgieVerif.C14
 open DawgieVerif.Handshake
@@ -59,5 +59,26 @@ theorem hs_tail_in_order (e : Env) (s : St) (reply : Frame.Bytes)
     (phaseFn e s reply).1.inner = (Frame.feed s.inner s.buf).1 ∧
     (phaseFn e s reply).1.buf = [] ∧ (phaseFn e s reply).1.restored = true := by
   simp [phaseFn, hp, hv, hd]
+
+/-- **Fragmentation-proof through the handshake.**  For every signature oracle that rejects the
+    empty message, every byte stream and every way of cutting it into `dataReceived` calls, the
+    connection ends up in the same observable condition as with delivery in one piece: the same
+    payloads handed to the wrapped protocol in the same order, closed or not, handshake completed
+    or not, the same challenges sent, the same residual state of the wrapped protocol. -/
+theorem hs_any_chunking (e : Env) (hnil : e.verify [] = false) (chunks : List Frame.Bytes) :
+    (feedAllT e init chunks).delivered = (feedAllT e init [chunks.flatten]).delivered ∧
+    (feedAllT e init chunks).closed = (feedAllT e init [chunks.flatten]).closed ∧
+    (feedAllT e init chunks).restored = (feedAllT e init [chunks.flatten]).restored ∧
+    (feedAllT e init chunks).sent = (feedAllT e init [chunks.flatten]).sent ∧
+    (feedAllT e init chunks).inner = (feedAllT e init [chunks.flatten]).inner := by
+  have h := feedAllT_flatten e hnil init settled_init chunks
+  simp only [feedAllT]
+  rcases h with h | ⟨h1, h2, h3, _, h5, h6, h7⟩
+  · rw [h]; exact ⟨rfl, rfl, rfl, rfl, rfl⟩
+  · exact ⟨h6, by rw [h1, h2], h3, h5, h7⟩
+
+/-- non-vacuity: the table-driven oracle of the harness rejects the empty message -/
+example : (⟨fun b => b.take 2 == [79, 75], fun b => b.drop 2, [1, 2]⟩ : Env).verify [] = false := by
+  decide
 
 end DawgieVerif.C14
